@@ -20,6 +20,9 @@ def run_torch(env, prog):
     import torch
     from pose_format.torch.masked import MaskedTensor, MaskedTorch
     regs = [MaskedTensor(torch.tensor(np.array(e["data"], dtype=np.float32).reshape(e["shape"])), torch.tensor(np.array(e["mask"], dtype=bool).reshape(e["shape"]))) for e in env]
+    plain = {i for i, e in enumerate(env) if e.get("plain")}         # registers handed to cat / the right-hand side of ⊕ as plain tensors (all valid)
+    arg = lambda i: regs[i].tensor if i in plain else regs[i]
+    dump0 = [_dump_torch(r) for r in regs]
     out = []
     for ins in prog:
         k = ins["k"]
@@ -37,11 +40,14 @@ def run_torch(env, prog):
             elif k == "narrow":
                 n = a.tensor.shape[ins["axis"]]
                 r = a.split([ins["start"], ins["len"], n - ins["start"] - ins["len"]], ins["axis"])[1]
-            elif k == "cat": r = MaskedTorch.cat([regs[i] for i in ins["rs"]], dim=ins["dim"])
+            elif k == "cat": r = MaskedTorch.cat([arg(i) for i in ins["rs"]], dim=ins["dim"])
             elif k == "stack": r = MaskedTorch.stack([regs[i] for i in ins["rs"]], dim=ins["dim"])
             elif k == "bin":
-                x, y = regs[ins["r1"]], regs[ins["r2"]]
-                r = {"add": x + y, "sub": x - y, "mul": x * y, "div": x / y}[ins["f"]] if False else getattr(x, {"add": "__add__", "sub": "__sub__", "mul": "__mul__", "div": "__truediv__"}[ins["f"]])(y)
+                x, y = regs[ins["r1"]], arg(ins["r2"])
+                if ins["f"] == "div" and ins.get("via") == "method":
+                    r = x.div(regs[ins["r2"]])                       # the named method (in_place=False, update_mask=True): same meaning as `/`
+                else:
+                    r = getattr(x, {"add": "__add__", "sub": "__sub__", "mul": "__mul__", "div": "__truediv__"}[ins["f"]])(y)
             elif k == "bin_scalar":
                 r = getattr(a, {"add": "__add__", "sub": "__sub__", "mul": "__mul__", "div": "__truediv__"}[ins["f"]])(bits_f64(ins["c"]))
             elif k == "pow_scalar": r = MaskedTensor(a.tensor.clone(), a.mask.clone()).pow_(bits_f64(ins["c"]))
@@ -60,7 +66,21 @@ def run_torch(env, prog):
         regs.append(r)
         out.append({"shape": list(r.tensor.shape), "mask_shape": list(r.mask.shape), "data": [f64_bits(x) for x in r.tensor.detach().numpy().astype(np.float64).reshape(-1)],
                     "mask": [int(bool(x)) for x in r.mask.numpy().reshape(-1)], "zf": None if zf is None else [f64_bits(x) for x in zf.detach().numpy().astype(np.float64).reshape(-1)]})
+    # every register once more, after the whole program: no operation may have changed an earlier value (inputs included)
+    ok_steps = [o for o in out if "error" not in o]
+    first = dump0 + [(o["data"], o["mask"]) for o in ok_steps]
+    changed = [i for i, (r, d) in enumerate(zip(regs, first)) if _dump_torch(r) != (d[0], d[1])]
+    if out:
+        out[-1]["changed_registers"] = changed
     return out
+
+
+def _dump_torch(r):
+    return ([f64_bits(x) for x in r.tensor.detach().numpy().astype(np.float64).reshape(-1)], [int(bool(x)) for x in r.mask.numpy().reshape(-1)])
+
+
+def _dump_tf(r):
+    return ([f64_bits(x) for x in np.asarray(r.tensor).astype(np.float64).reshape(-1)], [int(bool(x)) for x in np.asarray(r.mask).reshape(-1)])
 
 
 def run_tf(env, prog):
@@ -68,6 +88,9 @@ def run_tf(env, prog):
     from pose_format.tensorflow.masked.tensor import MaskedTensor
     from pose_format.tensorflow.masked.tensorflow import MaskedTensorflow
     regs = [MaskedTensor(tf.constant(np.array(e["data"], dtype=np.float32).reshape(e["shape"])), tf.constant(np.array(e["mask"], dtype=bool).reshape(e["shape"]))) for e in env]
+    plain = {i for i, e in enumerate(env) if e.get("plain")}
+    arg = lambda i: regs[i].tensor if i in plain else regs[i]
+    dump0 = [_dump_tf(r) for r in regs]
     out = []
     for ins in prog:
         k = ins["k"]
@@ -87,10 +110,10 @@ def run_tf(env, prog):
             elif k == "narrow":
                 n = a.tensor.shape[ins["axis"]]
                 r = a.split([ins["start"], ins["len"], n - ins["start"] - ins["len"]], ins["axis"])[1]
-            elif k == "cat": r = MaskedTensorflow.concat([regs[i] for i in ins["rs"]], axis=ins["dim"])
+            elif k == "cat": r = MaskedTensorflow.concat([arg(i) for i in ins["rs"]], axis=ins["dim"])
             elif k == "stack": r = MaskedTensorflow.stack([regs[i] for i in ins["rs"]], axis=ins["dim"])
             elif k == "bin":
-                x, y = regs[ins["r1"]], regs[ins["r2"]]
+                x, y = regs[ins["r1"]], arg(ins["r2"])
                 r = getattr(x, {"add": "__add__", "sub": "__sub__", "mul": "__mul__", "div": "__truediv__"}[ins["f"]])(y)
             elif k == "bin_scalar":
                 r = getattr(a, {"add": "__add__", "sub": "__sub__", "mul": "__mul__", "div": "__truediv__"}[ins["f"]])(bits_f64(ins["c"]))
@@ -113,6 +136,11 @@ def run_tf(env, prog):
         regs.append(r)
         out.append({"shape": [int(x) for x in r.tensor.shape], "mask_shape": [int(x) for x in r.mask.shape], "data": [f64_bits(x) for x in np.asarray(r.tensor).astype(np.float64).reshape(-1)],
                     "mask": [int(bool(x)) for x in np.asarray(r.mask).reshape(-1)], "zf": None if zf is None else [f64_bits(x) for x in np.asarray(zf).astype(np.float64).reshape(-1)]})
+    ok_steps = [o for o in out if "error" not in o]
+    first = dump0 + [(o["data"], o["mask"]) for o in ok_steps]
+    changed = [i for i, (r, d) in enumerate(zip(regs, first)) if _dump_tf(r) != (d[0], d[1])]
+    if out:
+        out[-1]["changed_registers"] = changed
     return out
 
 
